@@ -218,8 +218,13 @@ static void ledger_json(const ctx_t *c)
 static TLS char *LINE; static TLS size_t LCAP;
 static TLS char **SC; static TLS int SCN, SCI;        /* lines of the current scenario */
 static char *nextline(void) { return SCI < SCN ? SC[SCI++] : NULL; }
-static double rdnum(char **s) { char *e; double v = strtod(*s, &e); if (e == *s) { fprintf(stderr, "sluh: bad number at '%s' (%s)\n", *s, g_id); _exit(98); } *s = e; return v; }
-static long rdint(char **s) { char *e; long v = strtol(*s, &e, 10); if (e == *s) { fprintf(stderr, "sluh: bad int at '%s' (%s)\n", *s, g_id); _exit(98); } *s = e; return v; }
+/* a script the parent handed over intact cannot become unreadable unless a library call of this scenario damaged the child's memory:
+ * before the first call a parse error is an error of the scenario generator (98, fatal for the check), after it the scenario ends
+ * abnormally (95, judged like any other abnormal end) */
+static TLS int g_calls_done;
+#define SCRIPT_ERR (g_calls_done ? 95 : 98)
+static double rdnum(char **s) { char *e; double v = strtod(*s, &e); if (e == *s) { fprintf(stderr, "sluh: bad number at '%s' (%s)\n", *s, g_id); _exit(SCRIPT_ERR); } *s = e; return v; }
+static long rdint(char **s) { char *e; long v = strtol(*s, &e, 10); if (e == *s) { fprintf(stderr, "sluh: bad int at '%s' (%s)\n", *s, g_id); _exit(SCRIPT_ERR); } *s = e; return v; }
 
 static void free_A(ctx_t *c)
 {
@@ -239,7 +244,7 @@ static void own(const void *p) { if (p) slu_v_set_owner(p, 1); }
 static void cmd_mat(char *s)
 {
     ctx_t *c = cx; char f[8]; int m, n; long nnz; int k;
-    if (sscanf(s, "%7s %d %d %ld%n", f, &m, &n, &nnz, &k) < 4) { fprintf(stderr, "bad mat\n"); _exit(98); }
+    if (sscanf(s, "%7s %d %d %ld%n", f, &m, &n, &nnz, &k) < 4) { fprintf(stderr, "bad mat\n"); _exit(SCRIPT_ERR); }
     free_A(c);
     c->fmt = strcmp(f, "NR") == 0; c->m = m; c->n = n; c->nnz = nnz;
     int outer = c->fmt == 0 ? n : m;
@@ -263,7 +268,7 @@ static void cmd_mat(char *s)
         for (int i = 0; i < 16; i++) c->ferr[i] = c->berr[i] = (real_t)-77;
         c->equed[0] = 'N'; c->equed[1] = 0;
     }
-    if (m > MAXN || n > MAXN) { fprintf(stderr, "sluh: matrix too large for this harness\n"); _exit(98); }
+    if (m > MAXN || n > MAXN) { fprintf(stderr, "sluh: matrix too large for this harness\n"); _exit(SCRIPT_ERR); }
 }
 static void cmd_newvals(char *s)
 {
@@ -293,7 +298,7 @@ static void cmd_rhs(char *s)
     /* rhs <nrhs> <ldb> [<ldx>] : B is m x nrhs with leading dimension ldb, X likewise with ldx (default ldb) */
     ctx_t *c = cx; int nrhs, ldb, ldx = -1;
     int got = sscanf(s, "%d %d %d", &nrhs, &ldb, &ldx);
-    if (got < 2) { fprintf(stderr, "bad rhs\n"); _exit(98); }
+    if (got < 2) { fprintf(stderr, "bad rhs\n"); _exit(SCRIPT_ERR); }
     if (got < 3 || ldx < 0) ldx = ldb;
     free_B(c);
     c->nrhs = nrhs; c->ldb = ldb; c->ldx = ldx; long tot = (long)ldb * nrhs, totx = (long)ldx * nrhs;
@@ -324,12 +329,12 @@ static void cmd_opt(char *s)
     else if (!strcmp(k, "Norm")) o->ILU_Norm = i; else if (!strcmp(k, "MILU")) o->ILU_MILU = i;
     else if (!strcmp(k, "PrintStat")) o->PrintStat = i;
     else if (!strcmp(k, "MILUDim")) o->ILU_MILU_Dim = d;
-    else { fprintf(stderr, "sluh: unknown option %s\n", k); _exit(98); }
+    else { fprintf(stderr, "sluh: unknown option %s\n", k); _exit(SCRIPT_ERR); }
 }
 static void cmd_work(char *s)
 {
     ctx_t *c = cx; long lw; int al;
-    if (sscanf(s, "%ld %d", &lw, &al) < 2) { fprintf(stderr, "bad work\n"); _exit(98); }
+    if (sscanf(s, "%ld %d", &lw, &al) < 2) { fprintf(stderr, "bad work\n"); _exit(SCRIPT_ERR); }
     /* an earlier workspace may still hold factors of this context: it is never released inside a scenario */
     c->work_raw = 0;
     c->lwork = lw; c->walign = al; c->usework = 1; c->work_alloc = lw > 0 ? lw : 0;
@@ -496,7 +501,7 @@ static void call_gssvx(int ilu)
     }
     mark_LU_owned(c);
     common_head(ilu ? "gsisx" : "gssvx", c); opts_json_same(c);
-    if (!ilu) slu_v_phases_json(OUT);
+    slu_v_phases_json(OUT);
     fprintf(OUT, ",\"info\":%lld,\"equed\":\"%c\"", (long long)c->info, c->equed[0] >= 32 && c->equed[0] < 127 && c->equed[0] != '"' && c->equed[0] != '\\' ? c->equed[0] : '?');
     snap_json(c, &s);
     jints("perm_c", c->perm_c, n); jints("perm_r", c->perm_r, c->m); jints("etree", c->etree, n);
@@ -614,7 +619,7 @@ static void cmd_destroy(char *s)
 
 static void run_scenario(void)
 {
-    reset_ctx();
+    reset_ctx(); g_calls_done = 0;
 #ifndef SLUH_MT
     slu_v_reset();          /* the ledger is process-wide: not reset while other threads are running */
 #endif
@@ -646,6 +651,7 @@ static void run_scenario(void)
         else if (!strcmp(cmd, "destroy")) cmd_destroy(rest);
         else if (!strcmp(cmd, "ledger")) { fprintf(OUT, "{\"e\":\"Ledger\",\"id\":\"%s\"", g_id); cx->ledger_mark = 0; ledger_json(cx); ENDLINE(); }
         else if (!strcmp(cmd, "call")) {
+            g_calls_done++;
             char fn[32]; int kk = 0; if (sscanf(rest, "%31s%n", fn, &kk) < 1) continue; char *a = rest + kk;
             if (!strcmp(fn, "gssv")) call_gssv();
             else if (!strcmp(fn, "gssvx")) call_gssvx(0);
@@ -653,9 +659,9 @@ static void run_scenario(void)
             else if (!strcmp(fn, "gstrf")) call_gstrf(0);
             else if (!strcmp(fn, "gsitrf")) call_gstrf(1);
             else if (!strcmp(fn, "gstrs")) call_gstrs(a);
-            else if (!extra_call(fn, a)) { fprintf(stderr, "sluh: unknown call %s\n", fn); _exit(98); }
+            else if (!extra_call(fn, a)) { fprintf(stderr, "sluh: unknown call %s\n", fn); _exit(SCRIPT_ERR); }
         }
-        else if (!extra_cmd(cmd, rest)) { fprintf(stderr, "sluh: unknown command %s\n", cmd); _exit(98); }
+        else if (!extra_cmd(cmd, rest)) { fprintf(stderr, "sluh: unknown command %s\n", cmd); _exit(SCRIPT_ERR); }
         fflush(OUT);
     }
 }
